@@ -13,6 +13,7 @@ func init() {
 			"(R4) no error return leaves the counter advanced (tree insertions cannot fail, or the counter is restored); (R5) replay filter: shouldApply decided on every ordering of (persisted index, entry index) by a finite order model, applyAdd only under it, new state = {l.Index, Version()+len-1}, state published after the write, every failure of the apply aborts; " +
 			"(R6) RaftNode.Add/AddBulk return the FSM's snapshots unchanged; (R7) RefreshVersion = last history key + 1 from the history table; (R8) CurrentVersion reported by proofs = version-1, and the version fields are bound field-for-field by the wire conversions; (R9) a state transfer is loaded until the stream's io.EOF or fails (no silent prefix).",
 		Assumptions: []string{"raft delivers committed entries in index order", "the store's batch write is atomic (C14)"},
+		Added:       "Third round: (R5) nothing on the apply path recovers from a panic; (R9) a restore always requests the transfer, reports its own version and ends on the first refused batch; (R6) hasher factories return a new hasher on every call.",
 		Declined:    "absence of gaps across restarts / leader changes / replays as a statement over schedules and crash points (raft's guarantees, RocksDB durability).",
 	}, runC05)
 }
@@ -219,12 +220,13 @@ func c05BulkIndex(c *Ctx) {
 	// every version rendered for the hyper tree inside the loop (appended or stored by index) is
 	// initialVersion + i
 	nV := 0
-	eachInstr(hyAB, func(in ssa.Instruction) {
+	hyRg := p.RegionOf(hyAB, 3)
+	hyRg.Instrs(func(site regionSite, in ssa.Instruction) {
 		call, isCall := in.(*ssa.Call)
-		if !isCall || !inCycle(in.Block()) {
+		if !isCall || !hyRg.InCycle(regionInstr{site, in}) {
 			return
 		}
-		t := p.TermOf(call)
+		t := hyRg.Term(site, call)
 		if !utilCallTerm(t, "Uint64AsBytes") {
 			return
 		}
@@ -263,10 +265,11 @@ func c05ErrorsAfterAdvance(c *Ctx) {
 		var why []string
 		for _, tr := range []*ssa.Function{p.MustMethod(pkgHistory, "HistoryTree", nm), p.MustMethod(pkgHyper, "HyperTree", nm)} {
 			for _, rt := range p.ReturnTerms(tr) {
-				e := rt[len(rt)-1]
-				if !(e.Op == "const" && e.Name == "nil") {
-					okAll = false
-					why = append(why, funcName(tr)+" can return "+e.String())
+				for _, e := range p.XLocal(rt[len(rt)-1], tr).Alts() {
+					if !(e.Op == "const" && e.Name == "nil") {
+						okAll = false
+						why = append(why, funcName(tr)+" can return "+e.String())
+					}
 				}
 			}
 		}
